@@ -159,12 +159,27 @@ func awaitPandoraTermination(pandora *engine.Engine, gracefulShutdown func(), er
 			log.Fatal("Unexpected signal received. Quiting.", zap.Stringer("signal", sig))
 		}
 
+		timeout := time.After(interruptTimeout)
 		select {
-		case <-time.After(interruptTimeout):
+		case <-timeout:
 			log.Fatal("Interrupt timeout exceeded")
 		case sig := <-sigs:
 			log.Fatal("Another signal received. Quiting.", zap.Stringer("signal", sig))
 		case err := <-errs:
+			// Engine run returns on cancel immediately. Await started tasks, aggregators
+			// should write and flush all reported samples before exit.
+			awaited := make(chan struct{})
+			go func() {
+				pandora.Wait()
+				close(awaited)
+			}()
+			select {
+			case <-awaited:
+			case <-timeout:
+				log.Fatal("Interrupt timeout exceeded")
+			case sig := <-sigs:
+				log.Fatal("Another signal received. Quiting.", zap.Stringer("signal", sig))
+			}
 			log.Fatal("Engine interrupted", zap.Error(err))
 		}
 
